@@ -183,6 +183,22 @@ pub fn c07(ctx: &Ctx) -> PropResult {
             cases.push(Case::new(Kind::Lex, format!("x <- \"a{c}{d}b\" y")).tag("string-body"));
         }
     }
+    // characters that editors and other tools put into files without showing them, other white space, other digits and
+    // letters: at the very start of the input (offset 0), after and between every symbol of the alphabet, in programs
+    let odd = ["\u{feff}", "\u{a0}", "\u{200b}", "\u{200d}", "\u{2028}", "\u{2029}", "\u{85}", "\u{b}", "\u{c}", "\u{3000}", "\u{ad}", "\u{fffd}", "\u{2060}", "\u{1680}", "\u{7f}", "\u{1}", "\u{1b}", "٣", "Ⅷ", "①", "ß", "ǅ", "ª", "\u{10ffff}"];
+    for c in odd {
+        for a in LEX_ALPHABET {
+            cases.push(Case::new(Kind::Lex, format!("{c}{a}")).tag("odd-character"));
+            cases.push(Case::new(Kind::Lex, format!("{a}{c}")).tag("odd-character"));
+            for b in LEX_ALPHABET {
+                cases.push(Case::new(Kind::Lex, format!("{c}{a}{b}")).tag("odd-character"));
+                cases.push(Case::new(Kind::Lex, format!("{a}{c}{b}")).tag("odd-character"));
+            }
+        }
+        for ctx_ in ["@", "@@x", "@x <- 1\n", "@DISPLAY(1)\n", "x@ <- 1", "x <- 1@", "x <- 1@\ny", "x <- \"@\"", "// @\nx", "@\nx", " @x", "\n@x", "x <- 1\n@y <- 2", "@// c\nx", "@\"s\"", "1@", "@1", "x@y", "1@2", "\\@\nx", "\\\n@x"] {
+            cases.push(Case::new(Kind::Lex, ctx_.replace('@', c)).tag("odd-character"));
+        }
+    }
     // escape sequences: every body of up to four characters over backslash, the escape letters, a quote and a letter
     for body in all_strings(&["\\", "n", "r", "t", "\"", "a", "q"], 4) {
         cases.push(Case::new(Kind::Lex, format!("s <- \"{body}\" x")).tag("escape-body"));
@@ -233,7 +249,7 @@ pub fn c07(ctx: &Ctx) -> PropResult {
     let stats = run_cases(&ctx.driver, cases, &lex_oracle, &no_known, ctx.threads);
     PropResult {
         stats,
-        rule: format!("every string of length <= {max_len} over a {}-symbol lexical alphabet (exhaustive), random strings to 24 units, mutated repository programs; non-trivial = at least two tokens before end-of-input, or a lexical error", LEX_ALPHABET.len()),
+        rule: format!("every string of length <= {max_len} over a {}-symbol lexical alphabet (exhaustive), random strings to 24 units, mutated repository programs; non-trivial = at least two tokens before end-of-input, or a lexical error; 24 characters that tools put into files or that belong to other scripts (U+FEFF, no-break / zero-width spaces, line / paragraph separators, NEL, VT, FF, other digits and letters, U+10FFFF) at offset 0, after and between every symbol of the alphabet and in 21 program contexts", LEX_ALPHABET.len()),
         exhaustive: false,
         notes: vec![],
     }
